@@ -412,7 +412,7 @@ class Aff:
         return S
 
     # -- facts on edges -------------------------------------------------------------
-    def facts_from_conds(self, conds):
+    def facts_from_conds(self, conds, sw=()):
         """equalities (Lin == 0) implied by branch conditions; includes residue reasoning:
         a value with an upper bound from an unsigned compare and disequalities that leave a
         single value is equal to that value."""
@@ -451,6 +451,14 @@ class Aff:
                 ent[1] = max(ent[1], kk)
             elif p == "ne":
                 ent[3].add(kk)
+        for v, kind, kk in sw:
+            lin = self.value(v)
+            if lin.constant() is not None:
+                continue
+            if kind == "eq":
+                eqs.append(lin.add(Lin.const(kk), -1))
+            else:
+                bounds.setdefault(repr(lin), [lin, 0, None, set()])[3].add(kk)
         for key, (lin, lo, hi, excl) in bounds.items():
             if hi is None or hi - lo > 64:
                 continue
@@ -460,10 +468,10 @@ class Aff:
         return eqs
 
     def facts_at(self, block):
-        return self.facts_from_conds(ir.conditions_at(self.f, block))
+        return self.facts_from_conds(ir.conditions_at(self.f, block), ir.switch_conds_at(self.f, block))
 
     def facts_on_edge(self, p, s):
-        return self.facts_from_conds(ir.conditions_on_edge(self.f, p, s))
+        return self.facts_from_conds(ir.conditions_on_edge(self.f, p, s), ir.switch_conds_on_edge(self.f, p, s))
 
     def bounds_at(self, block, lin, extra_conds=()):
         """(lo, hi) unsigned bounds of lin implied by the conditions at block (None = unbounded)"""
@@ -552,7 +560,8 @@ def prove_equal(A, v, target, block, depth=0, extra=()):
         worst = (True, None)
         for inc, pb in I.get("inc"):
             inc = tuple(inc)
-            facts = list(extra) + A.facts_on_edge(pb, I.b)
+            # facts collected further down speak about the phis of this block; on this edge each of them is its incoming value
+            facts = _subst_phis(A, list(extra), I.b, pb) + A.facts_on_edge(pb, I.b)
             ok, why = prove_equal(A, inc, target, pb, depth + 1, facts)
             if ok is False:
                 return False, why or ("on edge %s -> %s" % (f.blocks[pb].name, f.blocks[I.b].name))
@@ -561,10 +570,63 @@ def prove_equal(A, v, target, block, depth=0, extra=()):
         return worst
     D = A.value(v).add(target, -1)
     facts = list(extra) + A.facts_at(block)
+    return _prove_zero(A, D, facts, f.blocks[block].name, depth)
+
+
+def _prove_zero(A, D, facts, where, depth):
+    f = A.f
     res = entails_zero(D, facts, want_residue=True)
     if not res:
         return True, None
-    why = "at %s: difference = %s, known equalities %s" % (f.blocks[block].name, A.names(D), [A.names(e) for e in facts])
+    why = "at %s: difference = %s, known equalities %s" % (where, A.names(D), [A.names(e) for e in facts])
+    # the difference still mentions merge values (phis that are no recurrence): decide it per incoming edge of their block,
+    # all phis of that block taking their incoming values together (a cursor and a remaining length merged at the same point)
+    if depth < 6:
+        for t in sorted((t for t in res if isinstance(t, tuple) and t[0] == "i"), key=repr):
+            P = f.inst(t)
+            if P is None or P.op != "phi" or (P.get("scev") or {}).get("k") == "rec":
+                continue
+            worst = (True, None)
+            for _inc, pb in P.get("inc"):
+                D2 = _subst_phis(A, [D], P.b, pb)[0]
+                facts2 = _subst_phis(A, facts, P.b, pb) + A.facts_on_edge(pb, P.b)
+                ok, w2 = _prove_zero(A, D2, facts2, "%s via %s" % (where, f.blocks[pb].name), depth + 1)
+                if ok is False:
+                    return False, w2
+                if ok is None and worst[0]:
+                    worst = (None, w2)
+            return worst
+    if all(s == 1 for s in res):
+        return False, why     # the facts force the difference to a non-zero constant
     if all(s == 1 or (isinstance(s, tuple) and s[0] == "a") for s in res):
+        # a non-zero combination of entry values of parameters: these are free inputs, unless a fact ties them to a value
+        # this domain does not interpret (then the fact may force exactly the combination that makes the difference vanish)
+        if any(isinstance(t, tuple) and t[0] in ("i", "x") for e in facts for t in e if t != 1):
+            return None, why
         return False, why
     return None, why
+
+
+def _subst_phis(A, facts, block, pred):
+    f = A.f
+    sub = {}
+    for e in facts:
+        for t in e:
+            if isinstance(t, tuple) and t[0] == "i" and t not in sub:
+                P = f.inst(t)
+                if P is not None and P.op == "phi" and P.b == block:
+                    for inc, pb in P.get("inc"):
+                        if pb == pred:
+                            sub[t] = A.value(tuple(inc))
+    if not sub:
+        return facts
+    out = []
+    for e in facts:
+        r = Lin()
+        for t, k in e.items():
+            if t in sub:
+                r = r.add(sub[t], k)
+            else:
+                r = r.add(Lin({t: k}))
+        out.append(r)
+    return out
